@@ -540,8 +540,11 @@ fn variant_same_vars(a: &T, b: &T) -> bool {
             }
             match (&rx, &ry) {
                 (List(p, None), List(q, None)) if p.is_empty() && q.is_empty() => true,
-                (List(..), List(..)) => false,
-                _ => rx == ry,
+                // both remainders still have elements: compare them the same way (progress is guaranteed)
+                (List(p, _), List(q, _)) => !p.is_empty() && !q.is_empty() && variant_same_vars(&rx, &ry),
+                // a tail bound to a non-list term (e.g. `[a | f($_)]` against `[a | f(a)]`)
+                (List(..), _) | (_, List(..)) => false,
+                _ => variant_same_vars(&rx, &ry),
             }
         }
         _ => a == b,
